@@ -36,7 +36,8 @@ PLANE_SAMPLES = [
 ]
 
 POOL = ["<", "<a", "a<b", "<<", "a<", ">", "\\", '"', '\\"', "n", "\n", "\\n", "\x0b",
-        "é", "$", "\\<", "<\\", '"<"', " ", "< >", "<a b>", "\x00", "\x7f<", "\\x0b"]
+        "é", "$", "\\<", "<\\", '"<"', " ", "< >", "<a b>", "\x00", "\x7f<", "\\x0b",
+        "#", ";", "|", "::=", "'", "\t", "\r", "# c\n", '" | "']
 
 
 # --------------------------------------------------------------------------- #
